@@ -69,10 +69,10 @@ TextFam == {[CM("TEXTTABLE", it, "text", sc) EXCEPT !.dflt = d, !.dfltinv = di] 
 Simple == {CM("IDENTICAL", "int", "int", <<>>), CM("IDENTICAL", "uint", "uint", <<>>), CM("IDENTICAL", "float", "float", <<>>),
            CM("COMPUCODE", "int", "int", <<>>)}
 
-FamQuick == LinFam({0, 5}, {-2, 0, 1, 3}, {1, 2}, {Absent, Lim("CLOSED", 0), Lim("OPEN", 0), Lim("INFINITEV", 5)},
+FamQuick == LinFam({0, 5}, {-2, 0, 1, 3}, {1, 2, 10}, {Absent, Lim("CLOSED", 0), Lim("OPEN", 0), Lim("INFINITEV", 5)},
                    {Absent, Lim("CLOSED", 10), Lim("OPEN", 10), Lim("INFINITE", 0), Lim("INFINITEV", 5)}, NumPairs)
             \cup LinNoDen \cup ScaleLin2(NumPairs3) \cup Tab3(TabPairs) \cup RatFam(NumPairs3) \cup TextFam \cup Simple
-FamThorough == LinFam({-3, 0, 5}, {-2, 0, 1, 3}, {1, 2, 3}, LoLims, HiLims, NumPairs)
+FamThorough == LinFam({-3, 0, 5}, {-2, 0, 1, 3}, {1, 2, 3, 10}, LoLims, HiLims, NumPairs)
             \cup LinNoDen \cup ScaleLin2(NumPairs3) \cup ScaleLin3(NumPairs3) \cup Tab3(TabPairs) \cup Tab4({<<"int", "int">>, <<"int", "float">>})
             \cup RatFam(NumPairs3) \cup TextFam \cup Simple
 
